@@ -13,6 +13,7 @@ import SpectraVerif.Proofs.C17Sort
 import SpectraVerif.Proofs.C17Asc
 import SpectraVerif.Proofs.C17Width
 import SpectraVerif.Proofs.C17Test
+import SpectraVerif.Proofs.C17History
 import Mathlib.Data.Matrix.Mul
 import Mathlib.Tactic.Ring
 
@@ -577,5 +578,109 @@ example :
     (compute (exK3 false false) { n := 5, nev := 1 } 3 1 (construct [1])).exit = .gramFailed 0 ∧
     info (compute (exK3 false false) { n := 5, nev := 1 } 3 1 (construct [1])).s = .numericalIssue := by
   refine ⟨by decide, by decide, by decide, by decide, by decide⟩
+
+/-! ## 10: histories on ONE solver object (`Lobpcg.Obj`: members `A`, `m_B`/flag, `m_preconditioner`/flag, the state `St`) -/
+section history
+variable {α V : Type} [Add V] [Sub V] [SMul α V] (c : Cfg)
+
+/--
+  **What `compute()` reads of the object's state.**  Two object states with the same block `X`, the same `m_evalues` and the same
+  `m_evectors` give the same result (state, locals, exit, exception flag), for every kernel record: `m_info` (reset in the first
+  statement) and `m_residuals` (overwritten on every path) of an earlier call are never read.  No hypothesis on the kernels.
+-/
+theorem c17_compute_reads (K : Kern α V) (maxit : Int) (tol : α) (s0 s0' : St α V)
+    (hX : s0.X = s0'.X) (hv : s0.evals = s0'.evals) (hc : s0.evecs = s0'.evecs) :
+    compute K c maxit tol s0 = compute K c maxit tol s0' :=
+  compute_reads K c maxit tol s0 s0' hX hv hc
+
+/-- … and of those only `X` whenever the dense eigen-solver of the first projection succeeds (it then overwrites `m_evalues` and
+    `m_evectors` before anything reads them) -/
+theorem c17_compute_reads_X (K : Kern α V) (hE : ∀ X AX, (K.eig0 X AX).isSome) (maxit : Int) (tol : α) (s0 s0' : St α V)
+    (hX : s0.X = s0'.X) :
+    compute K c maxit tol s0 = compute K c maxit tol s0' :=
+  compute_X_only K c hE maxit tol s0 s0' hX
+
+/-- the setters only store: after ANY history the object's `A` is the constructor's, `B` / `T` are the arguments of the LAST
+    `setB` / `setPreconditioner` (none if there was none) — no call, in particular no `compute()`, changes them -/
+theorem c17_setters_last_win (A : V → V) (X0 : List V) (ops : List (Op α V)) :
+    (Obj.run c (Obj.ctor A X0) ops).A = A ∧
+    (Obj.run c (Obj.ctor A X0) ops).B = lastB none ops ∧
+    (Obj.run c (Obj.ctor A X0) ops).T = lastT none ops :=
+  ⟨Obj.run_A c _ ops, Obj.run_B c _ ops, Obj.run_T c _ ops⟩
+
+/--
+  **`compute()` is history independent.**  After ANY history `ops` of public calls on one object (constructor, then `setB`,
+  `setPreconditioner`, `compute` in any order and number, each `compute` with arbitrary kernels, arguments and outcome — failed,
+  converged, thrown), the result of the next `compute(maxit, tol)` — the whole `Out`: `info()`, `eigenvalues()`, `eigenvectors()`,
+  `residuals()`, `m_evectors`, the locals, the exit, the exception flag — equals that of a FRESH object constructed from
+  `(A, the block X the object holds now)`, given the B and T last set, and the same `compute(maxit, tol)`: the result is a function
+  of `(A, current B, current T, current X, maxit, tol)` only.  There is no remembered status, tolerance or result.
+  Hypothesis: the dense `EigenSolver` of the first projection does not fail (it cannot for a finite symmetric `X'AX`; the branch is
+  listed as uncovered).  Without it see `c17_compute_history_independent_partial`.
+  (X0 itself is not kept by the class: the constructor copies it into `X` and every `compute()` overwrites `X`, so "the same
+  A / X0" for a reused object means its current `X`.)
+-/
+theorem c17_compute_history_independent (A : V → V) (X0 : List V) (ops : List (Op α V)) (N : Kern α V) (maxit : Int) (tol : α)
+    (hE : ∀ X AX, (N.eig0 X AX).isSome) :
+    (Obj.run c (Obj.ctor A X0) ops).computeOut N c maxit tol =
+      (Obj.fresh A (Obj.run c (Obj.ctor A X0) ops).st.X (lastB none ops) (lastT none ops)).computeOut N c maxit tol := by
+  have hk : (Obj.run c (Obj.ctor A X0) ops).kern N =
+      (Obj.fresh A (Obj.run c (Obj.ctor A X0) ops).st.X (lastB none ops) (lastT none ops)).kern N :=
+    Obj.kern_congr N _ _ (Obj.run_A c _ ops) (Obj.run_B c _ ops) (Obj.run_T c _ ops)
+  unfold Obj.computeOut
+  rw [hk]
+  exact compute_X_only
+    (Obj.kern N (Obj.fresh A (Obj.run c (Obj.ctor A X0) ops).st.X (lastB none ops) (lastT none ops))) c hE maxit tol
+    (Obj.run c (Obj.ctor A X0) ops).st (construct (Obj.run c (Obj.ctor A X0) ops).st.X) rfl
+
+/-- without the hypothesis on the eigen-solver: two objects (whatever their histories) that agree in the three operators, in `X`
+    and in `m_evalues` / `m_evectors` give the same result.  The full clause "X alone" is FALSE for the code when the first
+    eigen-solver fails: `m_evalues` of the previous call survives and the final residuals are computed with it (`example` below);
+    on a fresh object `m_evalues` is then empty. -/
+theorem c17_compute_history_independent_partial (N : Kern α V) (maxit : Int) (tol : α) (o o' : Obj α V)
+    (hA : o.A = o'.A) (hB : o.B = o'.B) (hT : o.T = o'.T)
+    (hX : o.st.X = o'.st.X) (hv : o.st.evals = o'.st.evals) (hc : o.st.evecs = o'.st.evecs) :
+    o.computeOut N c maxit tol = o'.computeOut N c maxit tol := by
+  unfold Obj.computeOut
+  rw [Obj.kern_congr N o o' hA hB hT]
+  exact compute_reads _ c maxit tol _ _ hX hv hc
+
+omit [Add V] [Sub V] [SMul α V] in
+/-- a fresh object with operators is the constructor followed by the setters -/
+theorem c17_fresh_is_ctor_setters (A : V → V) (X : List V) (b t : V → V) :
+    (Obj.fresh A X (some b) (some t) : Obj α V) = ((Obj.ctor A X).setB b).setPreconditioner t ∧
+    (Obj.fresh A X (some b) none : Obj α V) = (Obj.ctor A X).setB b ∧
+    (Obj.fresh A X none (some t) : Obj α V) = (Obj.ctor A X).setPreconditioner t ∧
+    (Obj.fresh A X none none : Obj α V) = Obj.ctor A X :=
+  ⟨rfl, rfl, rfl, rfl⟩
+
+/-- consequence: two histories that leave the same block and whose last setters agree are indistinguishable for the next call -/
+theorem c17_histories_same_tail (A : V → V) (X0 X0' : List V) (ops ops' : List (Op α V)) (N : Kern α V) (maxit : Int) (tol : α)
+    (hE : ∀ X AX, (N.eig0 X AX).isSome)
+    (hX : (Obj.run c (Obj.ctor A X0) ops).st.X = (Obj.run c (Obj.ctor A X0') ops').st.X)
+    (hB : lastB none ops = lastB none ops') (hT : lastT none ops = lastT none ops') :
+    (Obj.run c (Obj.ctor A X0) ops).computeOut N c maxit tol = (Obj.run c (Obj.ctor A X0') ops').computeOut N c maxit tol := by
+  rw [c17_compute_history_independent c A X0 ops N maxit tol hE, c17_compute_history_independent c A X0' ops' N maxit tol hE,
+    hX, hB, hT]
+
+end history
+
+/-- the hypothesis of `c17_compute_history_independent` is satisfiable (`exK1`), and the operator change is visible: after
+    `compute; setB(2 *)` the next `compute` runs with the new B (residual `A x - θ B x = 1 - 1 * 2`), exactly as on a fresh object -/
+example : (∀ X AX, (exK1.eig0 X AX).isSome) ∧
+    ((Obj.run { n := 5, nev := 1 } (Obj.ctor id [1]) [.compute exK1 0 1, .setB (fun x => 2 * x)]).computeOut exK1
+        { n := 5, nev := 1 } 0 1).s.resid = [-1] ∧
+    ((Obj.run { n := 5, nev := 1 } (Obj.ctor id [1]) [.compute exK1 0 1]).computeOut exK1 { n := 5, nev := 1 } 0 1).s.resid = [0] := by
+  refine ⟨fun _ _ => rfl, by decide, by decide⟩
+
+/-- kernels whose first eigen-solver fails -/
+def exK4 : Kern Int Int := { exK1 with eig0 := fun _ _ => none }
+
+/-- sharpness of the hypothesis: with a failing first eigen-solver the stale `m_evalues` of an earlier call is read (final
+    residual `1 - 7 * 1`), a fresh object has none — same `X`, different `residuals()` -/
+example :
+    (compute exK4 { n := 5, nev := 1 } 0 1 { X := [1], resid := [], evecs := [], evals := [7], info := .success }).s.resid = [-6] ∧
+    (compute exK4 { n := 5, nev := 1 } 0 1 (construct [1])).s.resid = [] := by
+  refine ⟨by decide, by decide⟩
 
 end C17
